@@ -148,7 +148,8 @@ def run(tier, rep, ev):
         has_data = any(m["kind"] in ("file", "empty") for m in shape["members"])
         mixed = i % 10 == 9
         py_cases.append({"shape": shape, "calls": CALLS, "password": pw, "filters": filt, "seed": i, "target": "path" if (i // len(chains)) % 2 == 0 else "stream",
-                         "methods": (sorted(set(names)) if not mixed else ["7zAES", "LZMA2"]) if has_data else [], "methods_if_any_folder": sorted(set(names)),
+                         "methods": (sorted(set(names)) if not mixed else ["7zAES", "LZMA2"]) if has_data else [],
+                         "methods_if_any_folder": sorted(set(names)) if not mixed else ["7zAES", "LZMA2"],      # (a stream-less folder carries its session's chain too)
                          "dirsessions": i % 3 == 0, "mixed": mixed, "wd": os.path.join(base, f"p{i}")})
     traces, origins = [], []
     for fn, cases in ((execute_ref, ref_cases), (execute_py7zr_written, py_cases)):
